@@ -56,9 +56,17 @@ def _chunk(args):
   rng = np.random.default_rng(seed)
   for c in cfgs:
     dis, en, tg = set(c["dis"]), set(c["en"]), c["toggle"]
-    where = {"disable": sorted(dis), "enable": sorted(en), "toggle": tg}
+    integ = c.get("integrator", "Euler")
+    where = {"disable": sorted(dis), "enable": sorted(en), "toggle": tg, "integrator": integ}
     # ---- (a) the whole subset against MuJoCo C, one step from a random state
-    xml = with_flags(base, dis, en)
+    scene = base
+    if integ != "Euler":
+      scene = scene.replace('<option timestep="0.004"', f'<option integrator="{integ}" timestep="0.004"')
+    if integ in ("implicit", "implicitfast"):
+      # leave out what the implicit integrators are known to treat differently (findings F21 muscle, F32 fluid, F22 free/ball under implicitfast)
+      scene = scene.replace('density="1.2" viscosity="0.01" wind="0.5 0 0.2"', "").replace(' fluidshape="ellipsoid"', "")
+      scene = scene.replace('<muscle name="am" tendon="tf" lengthrange="-0.5 0.5"/>', '<motor name="am" tendon="tf" gear="0.3"/>')
+    xml = with_flags(scene, dis, en)
     mjm = mujoco.MjModel.from_xml_string(xml)
     mjd = mujoco.MjData(mjm)
     m = mjw.put_model(mjm)
@@ -66,9 +74,14 @@ def _chunk(args):
     st = {"qpos": mjm.qpos0.copy(), "qvel": rng.uniform(-0.5, 0.5, size=mjm.nv), "ctrl": rng.uniform(-1.5, 1.5, size=mjm.nu), "act": rng.uniform(-0.3, 0.3, size=mjm.na)}
     st["qpos"][7] += 0.5  # the arm's hinge beyond its limit
     family.apply_state(mjm, mjd, m, d, st)
+    if integ == "implicitfast":
+      # F22: MuJoCo's implicitfast keeps a Coriolis-derivative term for free / ball joints: start those joints at rest
+      st["qvel"][:6] = 0.0
+      st["qvel"][mjm.jnt_dofadr[mjm.joint("b").id] : mjm.jnt_dofadr[mjm.joint("b").id] + 3] = 0.0
+      family.apply_state(mjm, mjd, m, d, st)
     mujoco.mj_step(mjm, mjd)
     mjw.step(m, d)
-    sc = max(1.0, float(np.abs(mjd.qacc).max()) * mjm.opt.timestep * 25)
+    sc = max(1.0, float(np.abs(mjd.qacc).max()) * mjm.opt.timestep * 2)
     for f, tol in (("qpos", 1e-3), ("qvel", 5e-4), ("act", 1e-5), ("sensordata", 5e-3), ("energy", 1e-4)):
       g, r = getattr(d, f).numpy()[0], np.asarray(getattr(mjd, f))
       s = max(1.0, float(np.abs(r).max()) if r.size else 1.0, sc if f in ("qvel", "sensordata") else 0.0)
@@ -82,7 +95,7 @@ def _chunk(args):
     off, en_off = dis - {tg}, en - {tg}
     obs = []
     for dd, ee in ((off, en_off), (on, en_on)):
-      mm = mujoco.MjModel.from_xml_string(with_flags(base, dd, ee))
+      mm = mujoco.MjModel.from_xml_string(with_flags(scene, dd, ee))
       m2 = mjw.put_model(mm)
       d2 = mjw.make_data(mm, nworld=1)
       family.apply_state(mm, mujoco.MjData(mm), m2, d2, st)
@@ -103,7 +116,7 @@ def run(ctx: core.Ctx):
               "limits, friction loss, equalities, springs, dampers, gravity compensation, clamped actuators with dynamics, sensors, energy) with the "
               "whole subset vs mj_step with the same flags; (b) forward() with and without the toggled flag: every quantity outside the flag's "
               "MayChange set must be unchanged")
-  n = 60 if ctx.quick else 900
+  n = 200 if ctx.quick else 3000
   r = ctx.tlc("Gen_Flags", "Gen_Flags.cfg", gen=gen(n), workers=1, simulate="num=1", depth=n + 1, seed=ctx.seed % (1 << 30), timeout=900)
   cfgs = r.emit("cfg")
   for c in cfgs:
